@@ -48,20 +48,9 @@ func isLiteralAttr(key string) bool {
 }
 
 // escapeAttrValue escapes HTML special characters in attribute values.
-// It avoids double-escaping already-escaped HTML entities.
+// Attribute values hold plain (unescaped) text, both the ones parsed from the
+// template and the ones substituted from data, so they are always escaped here.
 func escapeAttrValue(val string) string {
-	// Quick check: if the string contains &, check if it's an HTML entity reference
-	// If it is, it's likely already escaped and we shouldn't escape it again
-	if strings.Contains(val, "&") {
-		// Check for common HTML entity patterns like &amp; &quot; &#34; etc
-		// If we find them, assume it's already properly escaped
-		if strings.Contains(val, "&amp;") || strings.Contains(val, "&quot;") ||
-			strings.Contains(val, "&apos;") || strings.Contains(val, "&lt;") ||
-			strings.Contains(val, "&gt;") || strings.Contains(val, "&#") {
-			return val
-		}
-	}
-	// Otherwise, escape unescaped special characters
 	return html.EscapeString(val)
 }
 
@@ -119,15 +108,9 @@ func getIndent(indent int) string {
 }
 
 // shouldEscapeTextNode checks if a text node needs HTML escaping.
-// Returns false if the text appears to be already HTML-escaped (from interpolation),
-// true if it contains raw HTML special characters that need escaping.
+// Text nodes hold plain (unescaped) text, so this only skips the call to
+// html.EscapeString for text that it would return unchanged.
 func shouldEscapeTextNode(data string) bool {
-	// If the text contains HTML entity references like &lt; &amp; &#39; etc,
-	// it's likely from interpolation and already escaped
-	if strings.Contains(data, "&") && strings.Contains(data, ";") {
-		return false
-	}
-	// Check if text contains unescaped HTML special characters
 	return strings.ContainsAny(data, "<>&\"'")
 }
 
